@@ -45,9 +45,10 @@ var targets = []target{
 		skip: map[string]bool{"log": true, "slog": true, "uciHandlerPtr": true, "initSemaphore": true, "isRunning": true}},
 	{file: "internal/search/alphabeta.go", structs: []string{"Search"}, wantGo: 0,
 		skip: map[string]bool{"log": true, "slog": true, "uciHandlerPtr": true, "initSemaphore": true, "isRunning": true}},
-	{file: "internal/uci/uci.go", structs: []string{"UciHandler"}, wantGo: 0, skip: map[string]bool{}},
+	{file: "internal/uci/uci.go", structs: []string{"UciHandler"}, wantGo: 0, skip: map[string]bool{"uciLog": true}},
 	{file: "internal/openingbook/openingbook.go", structs: []string{"Book"}, wantGo: 3, skip: map[string]bool{}},
 	{file: "internal/movegen/perft.go", structs: []string{"Perft"}, wantGo: 0, skip: map[string]bool{}},
+	{file: "internal/util/atomicbool.go", structs: nil, wantGo: 0, skip: map[string]bool{}},
 }
 
 func fail(format string, a ...interface{}) {
@@ -99,6 +100,9 @@ func structFields(dir string, names []string) map[string]map[string]bool {
 								ptr = false // fixed-size array is a value
 							}
 						}
+						if isAtomicType(fld.Type) {
+							continue // atomic wrapper: a synchronisation object, not data
+						}
 						for _, nm := range fld.Names {
 							m[nm.Name] = ptr
 						}
@@ -115,6 +119,21 @@ func structFields(dir string, names []string) map[string]map[string]bool {
 		}
 	}
 	return res
+}
+
+func isAtomicType(t ast.Expr) bool {
+	if st, ok := t.(*ast.StarExpr); ok {
+		t = st.X
+	}
+	if se, ok := t.(*ast.SelectorExpr); ok {
+		if id, ok := se.X.(*ast.Ident); ok {
+			// atomic wrapper, mutexes, wait groups, semaphores: synchronisation objects (shimmed), not data
+			if (id.Name == "util" && se.Sel.Name == "Bool") || id.Name == "sync" || id.Name == "semaphore" {
+				return true
+			}
+		}
+	}
+	return false
 }
 
 type access struct {
@@ -493,7 +512,7 @@ func main() {
 			case "golang.org/x/sync/semaphore":
 				repl, name = shimBase+"/vsem", "semaphore"
 			case "sync/atomic":
-				fail("%s imports sync/atomic: no shim", tg.file)
+				repl, name = shimBase+"/vatomic", "atomic"
 			}
 			if repl != "" {
 				if imp.Name != nil && imp.Name.Name != name {
@@ -525,7 +544,10 @@ func main() {
 			if !ok || fd.Body == nil {
 				continue
 			}
-			in.recv, in.strct = "", tg.structs[0]
+			in.recv, in.strct = "", ""
+			if len(tg.structs) > 0 {
+				in.strct = tg.structs[0]
+			}
 			if fd.Recv != nil && len(fd.Recv.List) == 1 && len(fd.Recv.List[0].Names) == 1 {
 				t := fd.Recv.List[0].Type
 				if st, ok := t.(*ast.StarExpr); ok {
